@@ -1,4 +1,78 @@
-import SdModel.Model.Derive
+import SdModel.Lemmas.DeriveIdx
+
+/-!
+# C04 — change detection is exact: one entry per changed field, none for unchanged ones
+
+`(relKind k).same` is the equality in the sense of each strategy: `=` for plain, nested, optional-nested and
+ordered fields (the generated code compares with the type's own `!=`, and `hirschberg` returns `None` exactly for
+equal lists — `C07.absent_iff_eq`); equal counts for unordered arrays; equal as maps for flat maps; equal key sets
+(key-only) / equal maps (key-and-value) for recursive maps.
+-/
 namespace C04
-theorem placeholder : True := trivial
+open Derive
+
+/-- **C04 (struct)**: the entry indices are strictly increasing — declaration order, so at most one entry per
+field — and position `j` has an entry exactly when field `j` is unskipped and its two values differ in the sense of
+its strategy -/
+theorem struct_entries (fts : FieldTys) (x y : Vals) (hx : SWT (relFields fts) x) (hy : SWT (relFields fts) y) :
+    let idx := ((semTy (.struct fts)).diff (.strct x) (.strct y)).map (·.1)
+    idx.Pairwise (· < ·) ∧
+    ∀ j, j ∈ idx ↔ ∃ F R va vb, (relFields fts)[j]? = some (false, F, R) ∧ valAt x j = some va ∧ valAt y j = some vb ∧
+      ¬ R.same va vb := by
+  intro idx
+  have hidx : idx = (sdiffG (·.diff) (fieldsOf (relFields fts)) 0 x y).map (·.1) := by
+    simp only [idx, semTy, ← fieldsOf_rel, structSem]
+  refine ⟨by rw [hidx]; exact (sdiffG_sorted _ _ 0 x y).1, fun j => ?_⟩
+  rw [hidx]
+  constructor
+  · intro hj
+    obtain ⟨⟨n, p⟩, hmem, rfl⟩ := List.mem_map.mp hj
+    obtain ⟨j, F, R, va, vb, e1, e2, e3, e4, e5⟩ := mem_sdiffG _ _ 0 x y n p hmem
+    simp only [Nat.zero_add] at e1; subst e1
+    refine ⟨F, R, va, vb, e2, e3, e4, fun hsame => ?_⟩
+    obtain ⟨_, w1, w2⟩ := swt_at _ x hx n _ e2
+    rw [e3] at w1; cases w1
+    obtain ⟨_, w3, w4⟩ := swt_at _ y hy n _ e2
+    rw [e4] at w3; cases w3
+    have := ((spec_fields fts _ (List.mem_of_getElem? e2)).none_iff va vb w2 w4).mpr hsame
+    simp only [] at e5 this
+    rw [this] at e5; cases e5
+  · rintro ⟨F, R, va, vb, e2, e3, e4, hne⟩
+    obtain ⟨_, w1, w2⟩ := swt_at _ x hx j _ e2
+    rw [e3] at w1; cases w1
+    obtain ⟨_, w3, w4⟩ := swt_at _ y hy j _ e2
+    rw [e4] at w3; cases w3
+    cases hd : F.diff va vb with
+    | none => exact absurd (((spec_fields fts _ (List.mem_of_getElem? e2)).none_iff va vb w2 w4).mp hd) hne
+    | some p =>
+      have := sdiffG_mem (·.diff) _ 0 x y j F R va vb p e2 e3 e4 hd
+      simp only [Nat.zero_add] at this
+      exact List.mem_map.mpr ⟨(j, p), this, rfl⟩
+
+/-- `a.diff(&a)` is empty — for every type -/
+theorem self_empty (t : Ty) (a : Val) (ha : (relTy t).wt a) : (semTy t).diff a a = [] := (spec_ty t).self a ha
+
+/-- **C04 (enum)**: empty iff `a == b`, otherwise a single whole-value replacement -/
+theorem enum_diff (a b : Val) : (semTy .enum).diff a b = if a = b then [] else [(0, .val b)] := by
+  simp [semTy, enumSem]
+
+/-- `diff_ref` reports exactly the same entries -/
+theorem diff_ref_same (t : Ty) (a b : Val) : (semTy t).diffRef a b = (semTy t).diff a b := (spec_ty t).ref_eq a b
+
+/-! what `same` means per strategy -/
+theorem same_plain (a b : Val) : (relKind .plain).same a b ↔ a = b := by simp [relKind, plainRel]
+theorem same_recurse (t : Ty) (a b : Val) : (relKind (.recurse t)).same a b ↔ a = b := by simp [relKind, recurseRel]
+theorem same_recurseOpt (t : Ty) (a b : Val) : (relKind (.recurseOpt t)).same a b ↔ a = b := by simp [relKind, roptRel]
+theorem same_ordered (a b : Val) : (relKind .ordered).same a b ↔ a = b := by simp [relKind, orderedRel]
+theorem same_unord (a b : Val) : (relKind .unordArr).same a b ↔ ∀ x, (asList a).count x = (asList b).count x := by
+  simp [relKind, unordRel]
+theorem same_map (ko : Bool) (a b : Val) :
+    (relKind (.map ko)).same a b ↔ ∀ k, UMap.plookup (asPairs a) k = UMap.plookup (asPairs b) k := by
+  simp [relKind, mapRel]
+theorem same_recMap (ko : Bool) (t : Ty) (a b : Val) :
+    (relKind (.recMap ko t)).same a b ↔
+      (∀ k, (RMap.kget (asRMap a) k).isSome = (RMap.kget (asRMap b) k).isSome) ∧
+      (ko = false → ∀ k pv cv, RMap.kget (asRMap a) k = some pv → RMap.kget (asRMap b) k = some cv → pv = cv) := by
+  simp [relKind, recMapRel]
+
 end C04
